@@ -24,7 +24,7 @@ class HierCase(object):
     """
 
     def __init__(self, rng, leaves, n_ids, n_out, fix_sigma, reduced=False,
-                 posterior=False, em_names=None, id_style='default'):
+                 posterior=False, em_names=None, id_style='default', nest=None):
         self.leaves = leaves
         self.n_ids = n_ids
         self.n_out = n_out
@@ -57,6 +57,7 @@ class HierCase(object):
         self.reduced = reduced
         self.posterior = posterior
         self.id_style = id_style
+        self.nest = nest
         self.free_top = np.ones(self.h.n_top, dtype=bool)
         self.x_full = None
         self.cov = None
@@ -73,11 +74,15 @@ class HierCase(object):
                 ll.set_id(10 + i)
             elif self.id_style == 'str':
                 ll.set_id('patient-%s' % 'abcdefgh'[i])
+            elif self.id_style == 'unsorted':
+                # order of the individuals differs from the sort order of
+                # their labels
+                ll.set_id(['mouse 7', 'mouse 10', 'B', 'a', '2', '11'][i])
             if tap:
                 ll.get_submodels()['Mechanistic model'].tap = True
             lls.append(ll)
         self.lls = lls
-        pm = GP.build_chi(self.leaves, self.n_ids)
+        pm = GP.build_chi(self.leaves, self.n_ids, nest=self.nest)
         pm.set_dim_names(self.dim_names)
         self.h, self.x_full, self.cov = GP.hierarchy_vector(
             rng, self.leaves, self.n_ids)
@@ -189,6 +194,7 @@ class HierCase(object):
                 'fixed_top_mask': (~self.free_top).tolist()
                 if self.x_full is not None else None,
                 'posterior': self.posterior, 'id_style': self.id_style,
+                'nested_wrappers': self.nest is not None,
                 'x': self.x_full, 'covariates': self.cov}
 
     def features(self):
@@ -199,6 +205,8 @@ class HierCase(object):
                 'n_leaves': len(self.leaves), 'n_ids': self.n_ids,
                 'reduced': self.reduced, 'posterior': self.posterior,
                 'bare': len(self.leaves) == 1,
+                'nested_wrappers': self.nest is not None,
+                'id_style': self.id_style,
                 'fixed_top': bool(np.any(~self.free_top))}
 
 
